@@ -56,6 +56,12 @@ def judge(ctx, kind, n, m, res, rp):
         check(ctx, f"pc(sample with counts {n})", lambda: prs.pc(x), res["pc"], "pc", rp)
     if kind == "var":
         check(ctx, f"varpc_n(np.array({n}))", lambda: prs.varpc_n(np.array(n)), res["var"], "varpc_n", rp)
+        own = np.array(n, dtype=float)
+        keep = own.copy()
+        check(ctx, f"varpc_n(float array {n})", lambda: prs.varpc_n(own), res["var"], "varpc_n/float", rp)
+        check(ctx, f"pc_n(float array {n}) after varpc_n", lambda: prs.pc_n(own), res["pc"], "pc_n/float", rp)
+        if not np.array_equal(own, keep):
+            ctx.violation("varpc_n/argument_mutated", f"varpc_n / pc_n modified the caller's count array {keep.tolist()} -> {own.tolist()}", rp)
         check(ctx, f"varpc_n(np.array({nz}))", lambda: prs.varpc_n(np.array(nz)), res["var"], "varpc_n", rp)
         check(ctx, f"stdpc_n(np.array({n}))", lambda: prs.stdpc_n(np.array(n)), res["var"], "stdpc_n", rp, sqrt=True)
         for dt in (np.int16, np.int32):
